@@ -968,7 +968,9 @@ class OdeSystem(object):
         else:
             tf = self.tf
 
-        if D.ar_numpy.abs(tf - self.__t[self.counter]) < D.epsilon(self.__y[self.counter].dtype):
+        # Same threshold as the exit test of the integration loop: a target this close is already reached, carrying
+        # on would only shrink dt to the (unresolvable) distance left and stall later calls with zero-length steps
+        if D.ar_numpy.abs(tf - self.__t[self.counter]) < D.tol_epsilon(self.__y[self.counter].dtype):
             return
         steps = 0
 
